@@ -260,6 +260,26 @@ func (m *Model) RunTokPos(s *Sink, rule string) {
 	if !m.newTokenCases(s, rule, newTok) {
 		m.checkNewToken(s, rule, newTok)
 	}
+	// (c') whatever the encoding: New, readChar, tokenBegins and newToken together, on real lexer states, against the
+	// geometry of the input (this is what ties the constructor and readChar's first call to the counters newToken reads)
+	if byName {
+		g := m.tokposGeometry(newTok)
+		key := "lexer|positions follow the geometry of the input"
+		var bads []string
+		for _, f := range []string{"StartLine", "StartCol", "EndLine", "EndCol"} {
+			if g.bad[f] != "" {
+				bads = append(bads, g.bad[f])
+			}
+		}
+		switch {
+		case !g.decided:
+			s.Undecided(rule, key, m.Pos(newTok.Pos()), "the lexer's bookkeeping could not be evaluated on real lexer states (%s)", g.why)
+		case len(bads) > 0:
+			s.Violation(rule, key, m.Pos(newTok.Pos()), "%s: token positions are not the line and byte column of the bytes", strings.Join(bads, "; "))
+		default:
+			s.OK(rule, key, m.Pos(newTok.Pos()), "case evaluation of New, readChar, tokenBegins and newToken on real lexer states (%d scenarios over 8 inputs, among them one that begins with a line feed and ones with \\r\\n): start = the byte at tokenBegins, end = the byte last read (the current one for EOF)", g.scenarios)
+		}
+	}
 	// (d) start is taken before consuming: in every function that calls newToken, every path from entry to
 	// that call passes a beginner (tokenBegins or a callee that begins first), and no input is consumed before it
 	beginner := map[*ssa.Function]bool{tokBegins: true}
@@ -1036,6 +1056,8 @@ func (m *Model) tokposGeometry(fn *ssa.Function) *tokposGeom {
 		{"ab\n", 0, 3},
 		{"x\n\ny", 0, 3},
 		{"abc", 1, 1},
+		{"\nab", 0, 2}, // the very first byte is a line feed
+		{"\nab", 1, 1},
 	}
 	other := tokVals[0]
 	if other == eofVal {
@@ -1114,7 +1136,7 @@ func (m *Model) newTokenGeometry(s *Sink, rule string, fn *ssa.Function) bool {
 		if g.bad[f] != "" {
 			s.Violation(rule, key, m.Pos(fn.Pos()), "%s: the token's range is not that of its text, so errors about it name a wrong line and a cursor on it is not found", g.bad[f])
 		} else {
-			s.OK(rule, key, m.Pos(fn.Pos()), "case evaluation of New, readChar, tokenBegins and newToken on real lexer states (%d scenarios over 7 inputs, every token type on the one whose six line and column numbers differ): start = the byte at tokenBegins, end = the byte last read (the current one for EOF%s); a carriage return does not start a line", g.scenarios, map[bool]string{true: " and for a token that has read nothing", false: ""}[g.unreadAtStart])
+			s.OK(rule, key, m.Pos(fn.Pos()), "case evaluation of New, readChar, tokenBegins and newToken on real lexer states (%d scenarios over 8 inputs, every token type on the one whose six line and column numbers differ): start = the byte at tokenBegins, end = the byte last read (the current one for EOF%s); a carriage return does not start a line", g.scenarios, map[bool]string{true: " and for a token that has read nothing", false: ""}[g.unreadAtStart])
 		}
 	}
 	return true
